@@ -137,7 +137,14 @@ func (ex *Exec) callWith(f *frame, st *State, instr ssa.Instruction, cc *ssa.Cal
 		return
 	}
 	name := funcName(callee)
-	// receivers of static method calls on possibly nil pointers are not dereferenced here; the callee does that.
+	// a method of a dependency type with a pointer receiver dereferences its receiver (assumed of the dependency): a receiver
+	// that came out of a call, a map lookup or a comma-ok assertion must be shown non-nil
+	if f.sweepOn() && !isRulio(callee) && callee.Signature.Recv() != nil && len(cc.Args) > 0 {
+		if _, isPtr := callee.Signature.Recv().Type().Underlying().(*types.Pointer); isPtr && ex.mayBeNil(f, cc.Args[0]) && !nilSafeReceiver[callee.String()] {
+			ex.oblige(f, st, "nilderef", ex.V.srcText(cc.Args[0], pos)+"."+callee.Name(), "", pos, not(eq(args[0], intLit(0))), "method of a dependency type called on a possibly nil pointer")
+		}
+	}
+	// receivers of static method calls on possibly nil rulio pointers are not dereferenced here; the callee does that.
 	if ex.lockIntrinsic(f, st, callee, cc, pos) {
 		return
 	}
@@ -709,6 +716,11 @@ func (ex *Exec) lockOrderAtCall(f *frame, st *State, cc *ssa.CallCommon, pos tok
 			ex.lockOrderCheck(f, st, a, shortFn(t), pos)
 		}
 	}
+}
+
+// dependency methods documented to accept a nil receiver
+var nilSafeReceiver = map[string]bool{
+	"(*time.Location).String": true, "(*time.Timer).Stop": false,
 }
 
 func (ex *Exec) lockComp(l *Loc) string {
